@@ -200,6 +200,9 @@ Theorem shared_state_inventory :
   (* the only stores to / mutating calls on objects that are neither fresh in the call nor fresh per instance: an inverter's own protocol object *)
   suspicious_mutations = ["Inverter.set_keep_alive: self._protocol.keep_alive = .."%string; "ProtocolCommand.execute: protocol._retry = .."%string] /\
   (* the sensor definition classes that assign their own attributes outside __init__ *)
+  (* no object created at class-definition / import time (the ES read commands, the discovery command) is an instance of a class whose methods
+     assign its own attributes: per-object state lives in objects created per inverter object *)
+  forallb (fun x => negb (existsb (String.eqb (snd x)) stateful_object_classes_closure)) shared_instances = true /\
   self_mutating_definition_classes = ["EcoModeV1"; "EcoModeV2"; "PeakShavingMode"; "Schedule"]%string /\
   (* their instances in the class-level tables are exactly the rows of kind Schedule / EcoModeV1 of the generated tables *)
   mutable_rows =
